@@ -968,10 +968,11 @@ class Server(Node):
         app = self.apps[app_name]
         del self.apps[app_name]
 
-        app.server = None
-        app.evicted = True
-        app.unschedule = False
-        app.placement_expiry = None
+        if app.server == self.name:
+            app.server = None
+            app.evicted = True
+            app.unschedule = False
+            app.placement_expiry = None
 
         self.free_capacity += app.demand
         self.decrement_affinity([app.affinity.name])
